@@ -870,3 +870,9 @@ func TestC16HashFramingInjection(t *testing.T) {
 	r := ev.New(t, "C16")
 	ev.Drive(t, r, genC16Inject, runC16Inject)
 }
+
+
+// cmtNew: the library's own commitment function (the deviator uses it like everybody else).
+func cmtNew(r *big.Int, vals []*big.Int) *cmt.HashCommitDecommit {
+	return cmt.NewHashCommitmentWithRandomness(r, vals...)
+}
